@@ -158,6 +158,10 @@ func harnessC03Reentrant() {
 	}
 	bus = New(opts...)
 	c01Log, c01Re = nil, nil
+	if where == 5 && vBool() {
+		// a replay subscription is live on the bus while its appends fail
+		SubscribeWithReplay(context.Background(), bus, "c03-sub", func(e evA) {})
+	}
 	var so []SubscribeOption
 	if sequential {
 		so = append(so, Sequential())
